@@ -256,7 +256,26 @@ func doPkgOp(op pkgOp) []byte {
 		ok := priv.PublicKey.Verify(data, sig)
 		data[0] ^= 1
 		bad := priv.PublicKey.Verify(data, sig)
-		return append(sig, boolByte(ok), boolByte(bad))
+		data[0] ^= 1
+		out := append(sig, boolByte(ok), boolByte(bad))
+		// the same with caller-chosen user ids: an ordinary one, and (in one call of
+		// four) one that is too long and must be refused - error paths run
+		// concurrently with everybody else's good paths
+		uid := []byte(fmt.Sprintf("user-%d@verifsim", op.n))
+		r1, s1, err := sm2.Sm2Sign(priv, data, uid, st)
+		if err != nil {
+			return append(out, []byte("uidsign-err:"+err.Error())...)
+		}
+		out = append(out, boolByte(sm2.Sm2Verify(&priv.PublicKey, data, uid, r1, s1)), boolByte(sm2.Sm2Verify(&priv.PublicKey, data, []byte("someone else"), r1, s1)))
+		if op.n%4 == 0 {
+			long := make([]byte, 8192+op.n)
+			_, _, e1 := sm2.Sm2Sign(priv, data, long, st)
+			v := sm2.Sm2Verify(&priv.PublicKey, data, long, r1, s1)
+			out = append(out, boolByte(e1 != nil), boolByte(v))
+			r2, s2, err := sm2.Sm2Sign(priv, data, uid, st) // and straight afterwards a good call again
+			out = append(out, boolByte(err == nil && sm2.Sm2Verify(&priv.PublicKey, data, uid, r2, s2)))
+		}
+		return out
 	case pkEncrypt:
 		priv, err := sm2.GenerateKey(st)
 		if err != nil {
